@@ -45,6 +45,21 @@ void ob_c06_broadcast_to_invalid(const arr_f<float,N,RS>& a, const std::array<si
         OBLIGE("C06.broadcast_to.nothing_when_incompatible|C15.broadcast_to.nothing_when_incompatible", !nm::has_value(mv), RS, RD, J);
     }
 }
+// ---- a source with MORE dimensions than the target is refused whatever its extents (also when the surplus leading extents are 1:
+// NumPy raises; broadcast_to never squeezes)
+template <size_t N, size_t RS, size_t RD>
+void ob_c06_broadcast_to_rank_surplus(const arr_f<float,N,RS>& a, const std::array<size_t,RD>& dshape_)
+{
+    static_assert(RS > RD);
+    const auto dshape = dshape_;
+    for_<RS>([&](auto I){ ASSUME(rd<I.value>(a.shape_) >= 1 && rd<I.value>(a.shape_) <= 64); });
+    for_<RD>([&](auto I){ ASSUME(dshape[I.value] >= 1 && dshape[I.value] <= 64); });
+    auto mv = view::broadcast_to(a, dshape);
+    OBLIGE("C06.broadcast_to.nothing_when_the_source_has_more_dimensions|C15.broadcast_to.nothing_when_the_source_has_more_dimensions", !nm::has_value(mv), RS, RD);
+}
+template void ob_c06_broadcast_to_rank_surplus<64,2,1>(const arr_f<float,64,2>&, const std::array<size_t,1>&);
+template void ob_c06_broadcast_to_rank_surplus<64,3,2>(const arr_f<float,64,3>&, const std::array<size_t,2>&);
+template void ob_c06_broadcast_to_rank_surplus<64,3,1>(const arr_f<float,64,3>&, const std::array<size_t,1>&);
 void ob_c06b_negctl(const arr_f<float,24,1>& a, const std::array<size_t,2>& dshape_)
 {
     const auto dshape = dshape_;
